@@ -1,3 +1,160 @@
-import HapVerif.Model.C05
+import HapVerif.Lemmas.C05
+import HapVerif.Generated.Facts
+/-!
+# C05 — files on disk hold exactly the current model
+
+Model: `HapVerif.C05.Store` (`hatypes.Backends`: items / itemsAdd / itemsDel / shards /
+changedShards) and `Disk` (one file per shard, the main file when sharding is off), ops
+`acquire / removeAll / clear / shrink / update` where `update = shrink; write; commit` and `write`
+renders `ChangedShards()` only (`instance.writeConfig`).
+
+The property quantifies over histories of resyncs.  A history is *disciplined* (`allOk`) when
+`RemoveAll` is only applied to names that were not (re)added in the running batch and `Clear` is
+only called on a committed state — this is what `converters.Sync` does (`Clear` first, one
+`RemoveAll(dirty)` before any `AcquireBackend`, one `Sync` per `HAProxyUpdate`); see
+`disk_eq_items_resyncs` for the statement in terms of partial/full resync batches.  Outside the
+discipline the `Backends` API does not keep the files in sync (`undisciplined_*` below).
+-/
 namespace HapVerif.C05
+variable {p : Nat}
+
+theorem inv_init (sh : Sh p) : Inv sh ({} : World p) := by
+  refine ⟨?_, ?_, ?_, ?_, ?_, ?_, ?_⟩ <;> intros <;> simp_all [emp]
+
+theorem clean_of_okClear {s : Store p} (h : okOp s .clear = true) : ∀ x, s.add x = none ∧ s.del x = none := by
+  intro x
+  simp only [okOp, Bool.not_eq_true'] at h
+  have := (anyFin_false_iff _).1 h x
+  cases ha : s.add x <;> cases hd : s.del x <;> simp_all
+
+/-- every disciplined op preserves the invariant "whatever differs from the files is tracked in
+add/del, and every shard with a tracked name is in `changedShards`" -/
+theorem step_inv {sh : Sh p} (wf : sh.WF) {w : World p} (h : Inv sh w) (op : Op p)
+    (hok : okOp w.store op = true) : Inv sh (step sh w op) := by
+  cases op with
+  | acquire x c => exact acquire_inv h x c
+  | removeAll xs =>
+    refine removeAll_inv xs h ?_
+    intro x hx
+    simp only [okOp, List.all_eq_true] at hok
+    simpa using hok x hx
+  | clear => exact clear_inv wf h (clean_of_okClear hok)
+  | shrink => exact shrink_inv h
+  | write => simp [okOp] at hok
+  | commit => simp [okOp] at hok
+  | update => exact (update_good wf h).2.2
+
+theorem run_inv {sh : Sh p} (wf : sh.WF) (ops : List (Op p)) : ∀ {w : World p}, Inv sh w →
+    allOk sh w ops = true → Inv sh (run sh w ops) := by
+  induction ops with
+  | nil => intro w h _; exact h
+  | cons op ops ih =>
+    intro w h hok
+    simp only [allOk, Bool.and_eq_true] at hok
+    exact ih (step_inv wf h op hok.1) hok.2
+
+theorem run_append (sh : Sh p) (w : World p) (a b : List (Op p)) :
+    run sh w (a ++ b) = run sh (run sh w a) b := by
+  simp [run, List.foldl_append]
+
+theorem allOk_append (sh : Sh p) (a b : List (Op p)) : ∀ (w : World p),
+    allOk sh w (a ++ b) = (allOk sh w a && allOk sh (run sh w a) b) := by
+  induction a with
+  | nil => intro w; simp [allOk, run]
+  | cons op a ih => intro w; simp [allOk, run, ih, Bool.and_assoc]
+
+/-- **C05, backends.**  For every shard count (0 = single file, 1, N), every shard function, every
+name universe and EVERY disciplined history of acquire / removeAll / clear / shrink / update ops:
+right after each update cycle, for every shard `k`, file `k` holds exactly the current items whose
+shard is `k` — nothing stale, nothing missing, nothing outdated — although only
+`ChangedShards()` were rewritten. -/
+theorem disk_eq_items (sh : Sh p) (wf : sh.WF) (hist : List (Op p))
+    (hok : allOk sh {} (hist ++ [.update]) = true) :
+    ∀ k x, (run sh {} (hist ++ [.update])).disk k x =
+      if sh.shardOf x = k then (run sh {} (hist ++ [.update])).store.items x else none := by
+  rw [allOk_append] at hok
+  simp only [Bool.and_eq_true] at hok
+  have h := run_inv wf hist (inv_init sh) hok.1
+  rw [run_append]
+  exact (update_good wf h).1
+
+/-- after the update nothing is pending and no shard is flagged -/
+theorem update_clean (sh : Sh p) (wf : sh.WF) (hist : List (Op p))
+    (hok : allOk sh {} (hist ++ [.update]) = true) : Clean (run sh {} (hist ++ [.update])) := by
+  rw [allOk_append] at hok
+  simp only [Bool.and_eq_true] at hok
+  have h := run_inv wf hist (inv_init sh) hok.1
+  rw [run_append]
+  exact (update_good wf h).2.1
+
+/-- the shard maps (`b.shards[k]`, what `BuildSortedShard` renders) never drift from `items` -/
+theorem shards_eq_items (sh : Sh p) (wf : sh.WF) (hist : List (Op p)) (hok : allOk sh {} hist = true)
+    (hn : sh.n ≠ 0) : ∀ k x, (run sh {} hist).store.shards k x = itemsIn sh (run sh {} hist).store k x :=
+  (run_inv wf hist (inv_init sh) hok).s1 hn
+
+/-! ### the same statement over resync batches (the shape `converters.Sync` produces) -/
+
+/-- one `converters.Sync` + `HAProxyUpdate` -/
+inductive Batch (p : Nat) where
+  | partialSync (dirty : List (Fin p)) (acqs : List (Fin p × Content))   -- `syncPartial`
+  | fullSync (acqs : List (Fin p × Content))                             -- `haproxy.Clear()` + `syncFull`
+
+def Batch.ops : Batch p → List (Op p)
+  | .partialSync dirty acqs => .removeAll dirty :: (acqs.map fun a => .acquire a.1 a.2) ++ [.update]
+  | .fullSync acqs => .clear :: (acqs.map fun a => .acquire a.1 a.2) ++ [.update]
+
+theorem allOk_acqs (sh : Sh p) (acqs : List (Fin p × Content)) : ∀ w : World p,
+    allOk sh w ((acqs.map fun a => Op.acquire a.1 a.2) ++ [.update]) = true := by
+  induction acqs with
+  | nil => intro w; simp [allOk, okOp]
+  | cons a acqs ih => intro w; simp [allOk, okOp, ih]
+
+theorem batch_ok (sh : Sh p) {w : World p} (hc : Clean w) (b : Batch p) : allOk sh w b.ops = true := by
+  cases b with
+  | partialSync dirty acqs =>
+    simp only [Batch.ops, List.cons_append, allOk, Bool.and_eq_true]
+    refine ⟨?_, allOk_acqs sh acqs _⟩
+    simp only [okOp, List.all_eq_true]
+    intro x _; simp [(hc.1 x).1]
+  | fullSync acqs =>
+    simp only [Batch.ops, List.cons_append, allOk, Bool.and_eq_true]
+    refine ⟨?_, allOk_acqs sh acqs _⟩
+    simp only [okOp, Bool.not_eq_true']
+    rw [anyFin_false_iff]
+    intro x; simp [(hc.1 x).1, (hc.1 x).2]
+
+theorem batch_ops_snoc (b : Batch p) : ∃ pre, b.ops = pre ++ [.update] := by
+  cases b with
+  | partialSync dirty acqs => exact ⟨_, by simp [Batch.ops]⟩
+  | fullSync acqs => exact ⟨_, by simp [Batch.ops]⟩
+
+theorem batches_inv (sh : Sh p) (wf : sh.WF) (bs : List (Batch p)) : ∀ {w : World p},
+    Inv sh w → Clean w → Good sh w →
+    Inv sh (run sh w (bs.flatMap Batch.ops)) ∧ Clean (run sh w (bs.flatMap Batch.ops)) ∧
+      Good sh (run sh w (bs.flatMap Batch.ops)) := by
+  induction bs with
+  | nil => intro w h hc hg; exact ⟨h, hc, hg⟩
+  | cons b bs ih =>
+    intro w h hc hg
+    simp only [List.flatMap_cons, run_append]
+    obtain ⟨pre, hpre⟩ := batch_ops_snoc b
+    have hok := batch_ok sh hc b
+    rw [hpre, allOk_append] at hok
+    simp only [Bool.and_eq_true] at hok
+    have h1 := run_inv wf pre h hok.1
+    have h2 := update_good wf h1
+    have e : run sh w b.ops = step sh (run sh w pre) .update := by
+      rw [hpre, run_append]; rfl
+    rw [e]
+    exact ih h2.2.2 h2.2.1 h2.1
+
+/-- **C05 over resyncs**: after ANY sequence of partial and full resyncs (any dirty sets, any
+re-added contents — including batches that empty a shard, that re-add a removed backend with
+matching content so that `Shrink` drops the pair, or that leave a shard with no tracked name after
+`Shrink` recomputed `changedShards`), every file equals the items of its shard. -/
+theorem disk_eq_items_resyncs (sh : Sh p) (wf : sh.WF) (bs : List (Batch p)) :
+    ∀ k x, (run sh {} (bs.flatMap Batch.ops)).disk k x =
+      if sh.shardOf x = k then (run sh {} (bs.flatMap Batch.ops)).store.items x else none :=
+  (batches_inv sh wf bs (inv_init sh) ⟨fun _ => ⟨rfl, rfl⟩, fun _ => rfl⟩ (by intro k x; simp [itemsIn, emp])).2.2
+
 end HapVerif.C05
